@@ -27,6 +27,8 @@ type State struct {
 	gdepth  int            // > 0 while a goroutine other than main is running
 	socks   []ObjID        // sockets opened so far (sockets.go)
 	choice  []int          // program-level choices made with nondetEnum (states with different choices never merge)
+	clock   *Term          // deterministic clock (sockets.go); nil: time.Now() yields fresh non-decreasing instants
+	net     *netState      // socket script and recorded writes (copy-on-write)
 	ranges  map[*Term]urange // unsigned ranges implied by assumed comparisons (ranges.go); copy-on-write
 	rangesShared bool
 }
@@ -66,6 +68,8 @@ func (s *State) fork() *State {
 		choice:  s.choice[:len(s.choice):len(s.choice)],
 		ranges:  s.ranges,
 		rangesShared: true,
+		clock:   s.clock,
+		net:     s.net,
 	}
 	s.rangesShared = true
 	if len(s.views) > 0 {
@@ -498,13 +502,16 @@ func (e *Engine) mergeStates(a, b *State, extra func(g *Term) bool) (*State, boo
 	if a.nowSeq != b.nowSeq || a.lastNow != b.lastNow {
 		return nil, false
 	}
-	if len(a.choice) != len(b.choice) {
+	if len(a.choice) != len(b.choice) || a.net != b.net {
 		return nil, false
 	}
 	for i := range a.choice {
 		if a.choice[i] != b.choice[i] {
 			return nil, false
 		}
+	}
+	if (a.clock == nil) != (b.clock == nil) {
+		return nil, false
 	}
 	if a.gseq != b.gseq || a.gdepth != b.gdepth || len(a.socks) != len(b.socks) || !parkedEqual(a.parked, b.parked) {
 		return nil, false
@@ -585,6 +592,10 @@ func (e *Engine) mergeStates(a, b *State, extra func(g *Term) bool) (*State, boo
 		gdepth:  a.gdepth,
 		socks:   a.socks,
 		choice:  a.choice,
+		net:     a.net,
+	}
+	if a.clock != nil && b.clock != nil {
+		out.clock = e.tc.Ite(g, a.clock, b.clock)
 	}
 	if len(a.ranges) > 0 && len(b.ranges) > 0 {
 		out.ranges = map[*Term]urange{}
